@@ -248,6 +248,9 @@ class EmitAnalysis:
                 self.complete = False
                 break
             bi, h, pend, labels, fenv = st
+            if isinstance(h, int) and abs(h) > 8:
+                self.unknown_at.add(bi)      # a height that keeps growing: a data-dependent loop, not a fixed effect
+                continue
             blk = b.blocks[bi]
             if blk.get("cleanup") or bi in stop:
                 continue
@@ -563,7 +566,7 @@ def emitters(F):
     return out
 
 
-def analyse_all(F, rounds=4):
+def analyse_all(F, rounds=4, limit=60000):
     """bottom-up: analyse every emitter with the summaries known so far until no summary changes. Returns {key: EmitAnalysis}, summaries."""
     em = sorted(k for k in emitters(F) if not k.startswith(CG) and "mir" in F.fns.get(k, {}))
     summaries = {}
@@ -571,7 +574,7 @@ def analyse_all(F, rounds=4):
     for _ in range(rounds):
         changed = False
         for k in em:
-            a = EmitAnalysis(F, k, summaries, em_set=set(em)).run()
+            a = EmitAnalysis(F, k, summaries, em_set=set(em), limit=limit).run()
             results[k] = a
             sm = a.summary()
             if sm["ret"] is not None and not a.conflicts and not sm["label_conflicts"]:
